@@ -54,8 +54,31 @@ impl Monitor for C03Monitor {
         r: &mut Report,
     ) -> Vec<Issue> {
         if ctx.in_setup && ctx.op_idx + 1 != ctx.n_setup { return vec![] }
-        // let the synchronisations implied by the operation run
-        let (runs, ok) = w.quiesce();
+        // let the synchronisations implied by the operation run; the
+        // repository is looked at after EVERY task (each publication is
+        // atomic per publisher, so manifest, CRL and objects of a key are
+        // consistent at every such instant): short-lived states such as the
+        // old-key stage of a roll under a local parent are seen as well
+        let mut early: Vec<Issue> = vec![];
+        let mut runs = vec![];
+        let cause = op.kind().to_string();
+        let ok = kvh::world::quiesce_with(w, 90, 400, &mut |w, run| {
+            runs.push(run.clone());
+            if run.fatal().is_some() { return false }
+            if !matches!(run.task, krill::server::mq::Task::SyncRepo { .. }) {
+                return true
+            }
+            if let Some(obs) = oracle::observe(w) {
+                r.eval();
+                r.count("per_task_observations", 1);
+                self.ledger.record(&obs.view);
+                self.ledger.cause_now = cause.clone();
+                let (i, c) = self.ledger.check(&obs);
+                r.count("ledger_classifications", c);
+                if !i.is_empty() { early = i; return false }
+            }
+            true
+        });
         for run in &runs {
             if let Some(f) = run.fatal() {
                 return vec![(
@@ -64,6 +87,10 @@ impl Monitor for C03Monitor {
                     format!("{}: {f}", run.name()),
                 )]
             }
+        }
+        if !early.is_empty() {
+            return early.into_iter()
+                .map(|(s, d)| (format!("{s}@{}", op.kind()), d)).collect()
         }
         if !ok {
             r.inconclusive(format!(
